@@ -92,6 +92,11 @@ class Gen:
                                [['const', 0]], [['id']], [['is_none'], ['const', 0]], [['inc']]])     # falsy results that are not False pass
         inst = r.choice([[], [], ['int'], ['object'], ['str', 'dict']])
         default = None if r.random() < 0.6 else ['Lit', 'dflt']
+        if default is not None and r.random() < 0.5:
+            # evaluated like any argument on every path that uses it (type, one_of, validator, instance_of)
+            tn = ['T', 'T', []]
+            default = r.choice([['List', [tn]], ['Tuple', [tn, ['Lit', 0]]], ['Dict', False, [[['Str', 'v'], tn]]], ['List', []], tn,
+                                ['Val', 'val-default']])
         return ['Check', sub, types, vals, validators, inst, default]
 
 
@@ -193,6 +198,8 @@ python_snippet = c03.python_snippet
 def direct_oracle(case, out):
     if case.get('kind') == 'selfcmp':
         return '; '.join(out['problems']) if out.get('problems') else None
+    if 'ok' in out and "'opaque': 'TType'" in repr(out['ok']) or 'ok' in out and "'opaque': 'Val'" in repr(out['ok']):
+        return 'the result contains an unevaluated spec object (a default that was not evaluated as an argument): %r' % (out['ok'],)
     if 'raise' in out and case['spec'][0] in ('And', 'Or', 'Not', 'Switch', 'MExpr', 'M'):
         planted = "'raise', '%s'" % out['raise'] in repr(case['spec'])      # a value spec's own callable raised it: not a rejection
         if 'GlomError' in out.get('isa', []) and out['raise'] not in ('MatchError', 'TypeMatchError', 'PathAccessError') and not planted:
